@@ -273,3 +273,31 @@ Proof.
   destruct (fst (tl_unmarshal B fuel (GNamed ty) (skipn 4 b))); cbn; auto.
   eapply Hnp. reflexivity.
 Qed.
+
+(** * the list loops of tlb/dns.go *)
+Section DnsListP.
+  Variable item : list bool -> option (list bool).
+  (* every list head has a tag of at least one bit *)
+  Hypothesis item_progress : forall s r, item s = Some r -> (length r < length s)%nat.
+
+  Lemma dns_list_loop_ends fuel : forall s, (length s < fuel)%nat ->
+    dns_list_loop item false fuel s <> Err EFuel /\ np (dns_list_loop item false fuel s).
+  Proof.
+    induction fuel as [| f IH]; intros s Hl; [lia|]. cbn [dns_list_loop].
+    destruct (item s) as [r|] eqn:E.
+    - apply item_progress in E.
+      destruct r as [| next r']; [split; [discriminate | exact I]|].
+      destruct next; [| split; [discriminate | exact I]].
+      apply IH. cbn [length] in E. lia.
+    - split; [discriminate | exact I].
+  Qed.
+
+  (* the loop returns after at most one iteration per bit of the cell, whatever the bits are *)
+  Theorem dns_list_total s :
+    dns_list item false (S (length s)) s <> Err EFuel /\ np (dns_list item false (S (length s)) s).
+  Proof.
+    unfold dns_list. destruct s as [| next r]; [split; [discriminate | exact I]|].
+    destruct next; [| split; [discriminate | exact I]].
+    apply dns_list_loop_ends. cbn [length]. lia.
+  Qed.
+End DnsListP.
